@@ -230,7 +230,9 @@ def main(argv=None):
         bounds={"events": "<= 3 (quick) / <= 4 strided (thorough)", "tensors": "x, k shape (3,), one view, one intermediate"},
         assumptions=["real arithmetic"], outside=["longer histories", "more than three graphs"], exhaustive=True,
     )
-    return common.main(PROP, "harness.C09", cs, args.tier, args.seed, describe, extra_evidence=extra,
+    from symnp import selftest
+
+    return common.main(PROP, "harness.C09", cs, args.tier, args.seed, describe, preflight=selftest.run, extra_evidence=extra,
                        deadline_s=900 if args.tier == "quick" else 3000)
 
 
